@@ -1522,8 +1522,11 @@ class TT():
                     cores_new += cores[1:-1]
                     cores_new.append(tn.reshape(
                         cores[-1], [cores[-1].shape[0], mode_size, -1]))
-                else:
+                elif core.shape[1] == 1 or core.shape[1] == mode_size:
                     cores_new.append(core)
+                else:
+                    raise ShapeMismatch('Reshaping error: check if the dimensions care powers of the desired mode size:\r\ncore size '+str(
+                        list(core.shape))+' cannot be reshaped.')
             result = TT(cores_new)
 
         return result
